@@ -451,6 +451,45 @@ func (r *rwRT) ruleComments() {
 	in.Inline = func(f *ssa.Function) bool {
 		return inRw(f) && !passNames[f.Name()] && f.Name() != "rewriteYieldFunc" && !reachesFn(f, "rewriteYieldFunc", 4)
 	}
+	// every node type of go/ast that carries a Doc or a (line) Comment group: the traversal that collects the
+	// doc comments is shown one node of each, carrying distinct groups, and all of them must be in the list
+	// that is finally installed
+	type docField struct{ typ, field string }
+	var docFields []docField
+	astPkg := r.astPtr("File").(*types.Pointer).Elem().(*types.Named).Obj().Pkg()
+	for _, name := range astPkg.Scope().Names() {
+		tn, ok := astPkg.Scope().Lookup(name).(*types.TypeName)
+		if !ok {
+			continue
+		}
+		st, ok := tn.Type().Underlying().(*types.Struct)
+		if !ok {
+			continue
+		}
+		for i := 0; i < st.NumFields(); i++ {
+			f := st.Field(i)
+			if (f.Name() == "Doc" || f.Name() == "Comment") && strings.HasSuffix(f.Type().String(), "ast.CommentGroup") {
+				docFields = append(docFields, docField{name, f.Name()})
+			}
+		}
+	}
+	if len(docFields) < 10 {
+		undecided("only %d Doc/Comment fields found in go/ast", len(docFields))
+	}
+	in.OnCall = wrapOnCall(in.OnCall, func(cc *CallCtx) []Answer {
+		if cc.Fn != nil && (cc.Fn.Name() == "Inspect" || cc.Fn.Name() == "Walk") && strings.HasSuffix(fnPkgPath(cc.Fn), "go/ast") && len(cc.Args) == 2 {
+			if _, isClo := cc.Args[1].(Closure); isClo {
+				var inv []Invocation
+				for _, df := range docFields {
+					t := r.astPtr(df.typ)
+					ref := cc.St.alloc(&Obj{T: t.(*types.Pointer).Elem(), Kind: 's', Fields: map[string]AV{df.field: Sym{Name: "grp:" + df.typ + "." + df.field, NN: true}}})
+					inv = append(inv, Invocation{Fn: cc.Args[1], Args: []AV{Dyn{T: t, V: ref}}})
+				}
+				return []Answer{{Invoke: inv}}
+			}
+		}
+		return nil
+	})
 	// the passes may have attached comments: after a traversal the list is unknown (nil or not)
 	in.OnCall = wrapOnCall(in.OnCall, func(cc *CallCtx) []Answer {
 		if cc.Fn != nil && cc.Fn.Name() == "Apply" && strings.Contains(fnPkgPath(cc.Fn), "astutil") {
@@ -468,6 +507,9 @@ func (r *rwRT) ruleComments() {
 	r.account(in)
 	checked := 0
 	bad := ""
+	missing := map[string]string{}
+	collectedPaths, sorted := 0, 0
+	orderBad := ""
 	for _, o := range outs {
 		if o.Panicked || o.St.Truncated {
 			continue
@@ -517,6 +559,44 @@ func (r *rwRT) ruleComments() {
 			}
 			fmt.Fprintf(os.Stderr, "COMMENTS v=%s isNil=%v collected=%v conds=%v\n", v, isNil, collected, cs)
 		}
+		if !isNil && collected {
+			// the merged list must be in source order: go/printer interleaves comments by position
+			for _, e := range o.St.Events[:lastStore] {
+				if e.Kind != "call" || e.Fn == nil || fnPkgPath(e.Fn) != "sort" || len(e.Args) != 2 {
+					continue
+				}
+				less, isClo := e.Args[1].(Closure)
+				if !isClo {
+					continue
+				}
+				sorted++
+				for _, lo := range in.Apply(o.St, less, []AV{Sym{Name: "i"}, Sym{Name: "j"}}) {
+					if lo.Panicked || len(lo.Ret) != 1 {
+						continue
+					}
+					if os.Getenv("VERIF_DEBUG_COMMENTS") != "" {
+						fmt.Fprintf(os.Stderr, "COMMENTS less = %s\n", lo.Ret[0])
+					}
+					recvOf := map[string]string{} // result symbol of a Pos() call -> its receiver
+					for _, le := range lo.St.Events[len(o.St.Events):] {
+						if le.Kind == "call" && le.Fn != nil && le.Fn.Name() == "Pos" && le.Ret != nil && len(le.Args) >= 1 {
+							recvOf[le.Ret.String()] = "Pos(" + le.Args[0].String() + ")"
+						}
+					}
+					if !ascendingByPos(lo.Ret[0], recvOf) {
+						orderBad = "the comparator of the sort that orders the installed list is not `a.Pos() < b.Pos()`: " + lo.Ret[0].String()
+					}
+				}
+			}
+			names := map[string]bool{}
+			symNames(o.St, v, names, map[int]bool{})
+			for _, df := range docFields {
+				if !names["grp:"+df.typ+"."+df.field] {
+					missing[df.typ+"."+df.field] = pathSummary(o)
+				}
+			}
+			collectedPaths++
+		}
 		if !isNil && !collected {
 			bad = "a possibly non-empty comment list is installed in the file without the doc comments of the file's own nodes having been collected into it: go/printer then drops every doc comment — and directive — of the plain declarations: " + pathSummary(o)
 		}
@@ -527,4 +607,45 @@ func (r *rwRT) ruleComments() {
 	}
 	c.check(bad == "", "RW.COMMENTS", "doc comments survive the installed comment list", pos,
 		fmt.Sprintf("%d paths: the installed list is nil, or the doc comments of the file's nodes were collected into it", checked), bad)
+	if collectedPaths > 0 {
+		if sorted > 0 {
+			// only the comparator of a library sort is judged; a hand-written merge is not (its order is not decided here)
+			c.check(orderBad == "", "RW.COMMENTS", "installed list in source order", pos,
+				"the collected doc comments and the attached ones are merged by a sort on Pos(), ascending",
+				"go/printer expects File.Comments in source order; "+orderBad)
+		}
+		for _, df := range docFields {
+			k := df.typ + "." + df.field
+			c.check(missing[k] == "", "RW.COMMENTS", "collected into the installed list: ast."+k, pos,
+				"the group attached to such a node is in the list handed to go/printer",
+				"the comment group in ast."+k+" is not in the installed list (go/printer prints only listed groups once the list is non-nil: the comment, and a directive in it, is lost): "+missing[k])
+		}
+	}
+}
+
+// ascendingByPos: is v the comparison elem(i).Pos() < elem(j).Pos() (or its mirror image)?
+func ascendingByPos(v AV, recvOf map[string]string) bool {
+	e, ok := v.(Expr)
+	if !ok || len(e.Args) != 2 {
+		return false
+	}
+	a, b := e.Args[0].String(), e.Args[1].String()
+	if r, ok := recvOf[a]; ok {
+		a = r
+	}
+	if r, ok := recvOf[b]; ok {
+		b = r
+	}
+	hasI := func(s string) bool { return strings.Contains(s, "⟨i⟩") && !strings.Contains(s, "⟨j⟩") }
+	hasJ := func(s string) bool { return strings.Contains(s, "⟨j⟩") && !strings.Contains(s, "⟨i⟩") }
+	if !strings.Contains(a, "Pos") || !strings.Contains(b, "Pos") {
+		return false
+	}
+	switch e.Op {
+	case "<", "<=": // positions of distinct groups are distinct: <= orders them the same way
+		return hasI(a) && hasJ(b)
+	case ">", ">=":
+		return hasJ(a) && hasI(b)
+	}
+	return false
 }
